@@ -10,16 +10,22 @@
 //!   sch <T> <descriptor>  hand-written schema descriptor of the type (checked by the Lean model) -> ok
 //! Every op line is self-contained (type name + canonical text), so any trace can be replayed.
 use std::collections::HashMap;
+use std::hash::Hash;
+use std::num::NonZeroUsize;
+use std::sync::Arc;
+use std::time::Duration;
 use std::fmt::Debug;
 use std::marker::PhantomData;
 use std::panic::{catch_unwind, AssertUnwindSafe};
 
 use bytes::{BufMut, BytesMut};
-use num_bigint::BigInt;
+use num_bigint::{BigInt, BigUint};
 use svh::{hex, parse_args, unhex, Mode, Rng, Trace};
 use swimos_form::write::StructuralWritable;
 use swimos_form::{Form, Tag};
-use swimos_model::{Attr, Blob, Item, Text, Value};
+use swimos_model::{Attr, Blob, Item, Text, Timestamp, Value};
+use swimos_utilities::future::{Quantity, RetryStrategy};
+use swimos_utilities::routing::RouteUri;
 use swimos_msgpack::{read_from_msg_pack, MsgPackInterpreter, MsgPackWriteError};
 use swimos_recon::parser::parse_recognize;
 use swimos_recon::{print_recon, print_recon_compact, print_recon_pretty};
@@ -324,7 +330,7 @@ impl Fv for () {
 
 const STRINGS: &[&str] = &[
     "", "a", "b", "name", "hello", "hello world", "true", "false", "1a", " ", "S01", "é→ü", "\"q\"", "a\\b\nc\t",
-    "@x", "{", "}", ":", ",", "0", "-1", "%AA", "x y", "_u", "😀",
+    "@x", "{", "}", ":", ",", "0", "-1", "%AA", "x y", "_u", "😀", "infinite",
 ];
 
 impl Fv for String {
@@ -570,30 +576,45 @@ impl Fv for Value {
     }
 }
 
-impl<T: Fv> Fv for HashMap<String, T> {
+impl<K: Fv + Eq + Hash, T: Fv> Fv for HashMap<K, T> {
     fn ty() -> String {
         "x:map".into()
     }
     fn gen(r: &mut Rng, d: u32) -> Self {
         let n = r.below(4);
-        (0..n).map(|_| (String::gen(r, d), T::gen(r, d + 1))).collect()
+        (0..n).map(|_| (K::gen(r, d + 1), T::gen(r, d + 1))).collect()
     }
     fn gen_top(r: &mut Rng) -> Self {
-        let n = r.range(2, 4);
-        let keys = ["k", "b", "hello world", "S01", "1a", ""];
-        (0..n as usize).map(|i| (keys[(i + r.below(2) as usize * 3) % keys.len()].to_string(), T::gen(r, 1))).collect()
+        // 2-4 distinct keys (a few extra draws in case of collisions)
+        let n = r.range(2, 4) as usize;
+        let mut m = HashMap::new();
+        for _ in 0..12 {
+            if m.len() >= n {
+                break;
+            }
+            m.insert(K::gen(r, 1), T::gen(r, 1));
+        }
+        m
     }
     fn inst(&self, o: &mut String) {
-        let mut kv: Vec<_> = self.iter().collect();
-        kv.sort_by(|a, b| a.0.cmp(b.0));
+        let mut kv: Vec<(String, String)> = self
+            .iter()
+            .map(|(k, v)| {
+                let (mut a, mut b) = (String::new(), String::new());
+                k.inst(&mut a);
+                v.inst(&mut b);
+                (a, b)
+            })
+            .collect();
+        kv.sort();
         o.push_str("m[");
         for (i, (k, v)) in kv.iter().enumerate() {
             if i > 0 {
                 o.push(',');
             }
-            k.inst(o);
+            o.push_str(k);
             o.push(':');
-            v.inst(o);
+            o.push_str(v);
         }
         o.push(']');
     }
@@ -605,7 +626,7 @@ impl<T: Fv> Fv for HashMap<String, T> {
             return Some(m);
         }
         loop {
-            let k = String::parse(p)?;
+            let k = K::parse(p)?;
             p.eat(b':')?;
             let v = T::parse(p)?;
             m.insert(k, v);
@@ -718,6 +739,33 @@ macro_rules! bat_struct {
     };
 }
 
+/// `Fv` for a struct outside the Lean model (no descriptor, no `Default` needed).
+macro_rules! bat_struct_nodefault {
+    ($name:ident { $($f:ident : $ft:ty),* }) => {
+        impl Fv for $name {
+            fn ty() -> String { "x:struct".into() }
+            fn gen(r: &mut Rng, d: u32) -> Self { $name { $($f: <$ft as Fv>::gen(r, d + 1)),* } }
+            fn gen_top(r: &mut Rng) -> Self { $name { $($f: <$ft as Fv>::gen_top(r)),* } }
+            #[allow(unused_assignments)]
+            fn inst(&self, o: &mut String) {
+                o.push('(');
+                let mut first = true;
+                $( if !first { o.push(','); } first = false; self.$f.inst(o); )*
+                o.push(')');
+            }
+            #[allow(unused_assignments)]
+            fn parse(p: &mut P) -> Option<Self> {
+                p.eat(b'(')?;
+                let mut first = true;
+                $( if !first { p.eat(b',')?; } first = false; let $f = <$ft as Fv>::parse(p)?; )*
+                p.eat(b')')?;
+                Some($name { $($f),* })
+            }
+            fn modelled() -> bool { false }
+        }
+    };
+}
+
 /// Same for tuple structs: `$i` are the tuple indices, `$v` fresh binder names.
 macro_rules! bat_tuple {
     ($name:ident $(<$($g:ident),*>)? ( $($i:tt $v:ident : $ft:ty),* ) skip ( $($s:tt),* ) desc $desc:expr) => {
@@ -758,7 +806,7 @@ fn sd(form: char, tag: &str, fields: &[String]) -> String {
 }
 
 // 1 plain
-#[derive(Form, Clone, PartialEq, Debug, Default)]
+#[derive(Form, Clone, PartialEq, Eq, Hash, Debug, Default)]
 struct S01 {
     a: i32,
     b: String,
@@ -1216,7 +1264,7 @@ bat_struct!(S38 { a: N03, hb: Option<N03>, h: N03, b: N03 } skip {} desc
     sd('S', "S38", &[fd('a', "a", N03::ty()), fd('H', "hb", <Option<N03>>::ty()), fd('h', "h", N03::ty()), fd('b', "b", N03::ty())]));
 
 // enums
-#[derive(Form, Clone, PartialEq, Debug)]
+#[derive(Form, Clone, PartialEq, Eq, Hash, Debug)]
 enum E01 {
     Alpha,
     #[form(tag = "beta")]
@@ -1474,14 +1522,14 @@ impl<A: Fv + Form + Default, B: Fv + Form + Default> Fv for G2<A, B> {
 
 // every registry type also as the element of collections inside another struct (element recognisers are reset and
 // reused from the second element on)
-#[derive(Form, Clone, PartialEq, Debug, Default)]
+#[derive(Form, Clone, PartialEq, Debug)]
 struct CW<T> {
     v: Vec<T>,
     o: Option<T>,
     #[form(header)]
     n: i32,
 }
-impl<T: Fv + Form + Default> Fv for CW<T> {
+impl<T: Fv + Form> Fv for CW<T> {
     fn ty() -> String {
         sd('S', "CW", &[fd('s', "v", <Vec<T>>::ty()), fd('s', "o", <Option<T>>::ty()), fd('h', "n", i32::ty())])
     }
@@ -1514,6 +1562,427 @@ impl<T: Fv + Form + Default> Fv for CW<T> {
         T::modelled()
     }
 }
+
+// ---- every hand-written Form impl of swimos_form for std / library types (tools/extractors/c16.py checks that each
+// `impl StructuralWritable for X` / `impl RecognizerReadable for X` in the source has an entry here); all outside the
+// Lean model: decided on the implementation by the round-trip monitor
+
+impl Fv for usize {
+    fn ty() -> String {
+        "x:usize".into()
+    }
+    fn gen(r: &mut Rng, _d: u32) -> Self {
+        gen_i64_in(r, 0, u64::MAX as i128) as usize
+    }
+    fn inst(&self, o: &mut String) {
+        o.push_str(&format!("i{}", self));
+    }
+    fn parse(p: &mut P) -> Option<Self> {
+        p.eat(b'i')?;
+        p.int_text()?.parse().ok()
+    }
+    fn modelled() -> bool {
+        false
+    }
+}
+
+impl Fv for NonZeroUsize {
+    fn ty() -> String {
+        "x:nzusize".into()
+    }
+    fn gen(r: &mut Rng, _d: u32) -> Self {
+        NonZeroUsize::new((gen_i64_in(r, 1, u64::MAX as i128) as usize).max(1)).unwrap()
+    }
+    fn inst(&self, o: &mut String) {
+        o.push_str(&format!("i{}", self));
+    }
+    fn parse(p: &mut P) -> Option<Self> {
+        p.eat(b'i')?;
+        NonZeroUsize::new(p.int_text()?.parse().ok()?)
+    }
+    fn modelled() -> bool {
+        false
+    }
+}
+
+impl Fv for BigUint {
+    fn ty() -> String {
+        "x:biguint".into()
+    }
+    fn gen(r: &mut Rng, _d: u32) -> Self {
+        let pool = ["0", "1", "255", "256", "4294967296", "18446744073709551615", "18446744073709551616", "340282366920938463463374607431768211456"];
+        r.pick(&pool).parse().unwrap()
+    }
+    fn inst(&self, o: &mut String) {
+        o.push_str(&format!("H{}", self));
+    }
+    fn parse(p: &mut P) -> Option<Self> {
+        p.eat(b'H')?;
+        p.int_text()?.parse().ok()
+    }
+    fn modelled() -> bool {
+        false
+    }
+}
+
+impl Fv for Text {
+    fn ty() -> String {
+        "x:text".into()
+    }
+    fn gen(r: &mut Rng, d: u32) -> Self {
+        Text::new(&String::gen(r, d))
+    }
+    fn inst(&self, o: &mut String) {
+        o.push('t');
+        o.push_str(&hexs(self.as_str().as_bytes()));
+    }
+    fn parse(p: &mut P) -> Option<Self> {
+        p.eat(b't')?;
+        Some(Text::new(&p.hex_text()?))
+    }
+    fn modelled() -> bool {
+        false
+    }
+}
+
+impl Fv for RouteUri {
+    fn ty() -> String {
+        "x:uri".into()
+    }
+    fn gen(r: &mut Rng, _d: u32) -> Self {
+        let pool = ["/", "/node", "/a/b/c", "swim:/unit/%20x", "/path?q=1", "/p#frag", "warp://host:9001/lane?x=y#f", "/~tilde"];
+        loop {
+            if let Ok(u) = r.pick(&pool).parse() {
+                return u;
+            }
+        }
+    }
+    fn inst(&self, o: &mut String) {
+        o.push('t');
+        o.push_str(&hexs(self.as_str().as_bytes()));
+    }
+    fn parse(p: &mut P) -> Option<Self> {
+        p.eat(b't')?;
+        p.hex_text()?.parse().ok()
+    }
+    fn modelled() -> bool {
+        false
+    }
+}
+
+impl<T: Fv> Fv for Arc<T> {
+    fn ty() -> String {
+        T::ty()
+    }
+    fn gen(r: &mut Rng, d: u32) -> Self {
+        Arc::new(T::gen(r, d))
+    }
+    fn inst(&self, o: &mut String) {
+        (**self).inst(o)
+    }
+    fn parse(p: &mut P) -> Option<Self> {
+        Some(Arc::new(T::parse(p)?))
+    }
+    fn modelled() -> bool {
+        false
+    }
+}
+
+impl Fv for Duration {
+    fn ty() -> String {
+        "x:duration".into()
+    }
+    fn gen(r: &mut Rng, _d: u32) -> Self {
+        // fractional parts that are not whole micro- or milliseconds, the extremes of both fields
+        let secs = *r.pick(&[0u64, 1, 59, 86_400, u32::MAX as u64, u64::MAX]);
+        let nanos = *r.pick(&[0u32, 1, 999, 1_000, 1_001, 123_456_789, 500_000_000, 999_999_999]);
+        Duration::new(secs, nanos)
+    }
+    fn inst(&self, o: &mut String) {
+        o.push_str(&format!("D{}.{}", self.as_secs(), self.subsec_nanos()));
+    }
+    fn parse(p: &mut P) -> Option<Self> {
+        p.eat(b'D')?;
+        let s: u64 = p.int_text()?.parse().ok()?;
+        p.eat(b'.')?;
+        let n: u32 = p.int_text()?.parse().ok()?;
+        Some(Duration::new(s, n))
+    }
+    fn modelled() -> bool {
+        false
+    }
+}
+
+impl Fv for Timestamp {
+    fn ty() -> String {
+        "x:timestamp".into()
+    }
+    fn gen(r: &mut Rng, _d: u32) -> Self {
+        // microsecond resolution (what the representation keeps): whole seconds, fractional, before the epoch
+        let micros = *r.pick(&[0i64, 1, 999_999, 1_000_000, 1_500_000, 1_700_000_000_123_456, -1, -1_000_000, -1_500_001, 253_402_300_799_999_999]);
+        Timestamp::from(chrono::DateTime::<chrono::Utc>::from_timestamp_micros(micros).unwrap())
+    }
+    fn inst(&self, o: &mut String) {
+        let dt: &chrono::DateTime<chrono::Utc> = self.as_ref();
+        o.push_str(&format!("M{}.{}", dt.timestamp(), dt.timestamp_subsec_nanos()));
+    }
+    fn parse(p: &mut P) -> Option<Self> {
+        p.eat(b'M')?;
+        let s: i64 = p.int_text()?.parse().ok()?;
+        p.eat(b'.')?;
+        let n: u32 = p.int_text()?.parse().ok()?;
+        Some(Timestamp::from(chrono::DateTime::<chrono::Utc>::from_timestamp(s, n)?))
+    }
+    fn modelled() -> bool {
+        false
+    }
+}
+
+impl<T: Fv> Fv for Quantity<T> {
+    fn ty() -> String {
+        "x:quantity".into()
+    }
+    fn gen(r: &mut Rng, d: u32) -> Self {
+        if r.chance(1, 3) {
+            Quantity::Infinite
+        } else {
+            Quantity::Finite(T::gen(r, d + 1))
+        }
+    }
+    fn inst(&self, o: &mut String) {
+        match self {
+            Quantity::Infinite => o.push_str("Qinf"),
+            Quantity::Finite(t) => {
+                o.push_str("Qf");
+                t.inst(o)
+            }
+        }
+    }
+    fn parse(p: &mut P) -> Option<Self> {
+        p.eat(b'Q')?;
+        match p.next()? {
+            b'i' => {
+                p.eat(b'n')?;
+                p.eat(b'f')?;
+                Some(Quantity::Infinite)
+            }
+            b'f' => Some(Quantity::Finite(T::parse(p)?)),
+            _ => None,
+        }
+    }
+    fn modelled() -> bool {
+        false
+    }
+}
+
+impl Fv for RetryStrategy {
+    fn ty() -> String {
+        "x:retry".into()
+    }
+    fn gen(r: &mut Rng, d: u32) -> Self {
+        match r.below(4) {
+            0 => RetryStrategy::none(),
+            1 => RetryStrategy::immediate(NonZeroUsize::gen(r, d)),
+            2 => RetryStrategy::interval(Duration::gen(r, d), <Quantity<NonZeroUsize>>::gen(r, d)),
+            _ => RetryStrategy::exponential(Duration::gen(r, d), <Quantity<Duration>>::gen(r, d)),
+        }
+    }
+    fn inst(&self, o: &mut String) {
+        match self {
+            RetryStrategy::None(_) => o.push_str("Rn"),
+            RetryStrategy::Interval(s) => {
+                o.push_str("Ri(");
+                s.retry.inst(o);
+                o.push(',');
+                s.delay.inst(o);
+                o.push(')');
+            }
+            RetryStrategy::Exponential(s) => {
+                o.push_str("Re(");
+                s.max_interval.inst(o);
+                o.push(',');
+                s.max_backoff.inst(o);
+                o.push(')');
+            }
+        }
+    }
+    fn parse(p: &mut P) -> Option<Self> {
+        p.eat(b'R')?;
+        match p.next()? {
+            b'n' => Some(RetryStrategy::none()),
+            b'i' => {
+                p.eat(b'(')?;
+                let retry = <Quantity<usize>>::parse(p)?;
+                p.eat(b',')?;
+                let delay = <Option<Duration>>::parse(p)?;
+                p.eat(b')')?;
+                let mut s = RetryStrategy::default_interval();
+                if let RetryStrategy::Interval(i) = &mut s {
+                    i.retry = retry;
+                    i.delay = delay;
+                }
+                Some(s)
+            }
+            b'e' => {
+                p.eat(b'(')?;
+                let a = Duration::parse(p)?;
+                p.eat(b',')?;
+                let b = <Quantity<Duration>>::parse(p)?;
+                p.eat(b')')?;
+                Some(RetryStrategy::exponential(a, b))
+            }
+            _ => None,
+        }
+    }
+    fn modelled() -> bool {
+        false
+    }
+}
+
+impl<A: Fv> Fv for (A,) {
+    fn ty() -> String {
+        "x:tuple".into()
+    }
+    fn gen(r: &mut Rng, d: u32) -> Self {
+        (A::gen(r, d + 1),)
+    }
+    fn inst(&self, o: &mut String) {
+        o.push('<');
+        self.0.inst(o);
+        o.push('>');
+    }
+    fn parse(p: &mut P) -> Option<Self> {
+        p.eat(b'<')?;
+        let a = A::parse(p)?;
+        p.eat(b'>')?;
+        Some((a,))
+    }
+    fn modelled() -> bool {
+        false
+    }
+}
+
+type Tup12 = (i32, String, bool, u64, Option<i32>, Vec<i32>, i64, u32, S01, (i32, String), E01, ());
+impl Fv for Tup12 {
+    fn ty() -> String {
+        "x:tuple".into()
+    }
+    fn gen(r: &mut Rng, d: u32) -> Self {
+        let d = d + 1;
+        (Fv::gen(r, d), Fv::gen(r, d), Fv::gen(r, d), Fv::gen(r, d), Fv::gen(r, d), Fv::gen(r, d), Fv::gen(r, d),
+            Fv::gen(r, d), Fv::gen(r, d), Fv::gen(r, d), Fv::gen(r, d), Fv::gen(r, d))
+    }
+    fn inst(&self, o: &mut String) {
+        o.push('<');
+        self.0.inst(o); o.push(','); self.1.inst(o); o.push(','); self.2.inst(o); o.push(','); self.3.inst(o); o.push(',');
+        self.4.inst(o); o.push(','); self.5.inst(o); o.push(','); self.6.inst(o); o.push(','); self.7.inst(o); o.push(',');
+        self.8.inst(o); o.push(','); self.9.inst(o); o.push(','); self.10.inst(o); o.push(','); self.11.inst(o);
+        o.push('>');
+    }
+    fn parse(p: &mut P) -> Option<Self> {
+        p.eat(b'<')?;
+        let a = Fv::parse(p)?; p.eat(b',')?;
+        let b = Fv::parse(p)?; p.eat(b',')?;
+        let c = Fv::parse(p)?; p.eat(b',')?;
+        let d = Fv::parse(p)?; p.eat(b',')?;
+        let e = Fv::parse(p)?; p.eat(b',')?;
+        let f = Fv::parse(p)?; p.eat(b',')?;
+        let g = Fv::parse(p)?; p.eat(b',')?;
+        let h = Fv::parse(p)?; p.eat(b',')?;
+        let i = Fv::parse(p)?; p.eat(b',')?;
+        let j = Fv::parse(p)?; p.eat(b',')?;
+        let k = Fv::parse(p)?; p.eat(b',')?;
+        let l = Fv::parse(p)?;
+        p.eat(b'>')?;
+        Some((a, b, c, d, e, f, g, h, i, j, k, l))
+    }
+    fn modelled() -> bool {
+        false
+    }
+}
+
+/// `Vec<u8>`, `Box<[u8]>`, `Blob`: the three byte-blob impls side by side
+#[derive(Form, Clone, PartialEq, Debug, Default)]
+struct X08 {
+    a: Vec<u8>,
+    #[form(attr)]
+    b: Box<[u8]>,
+    #[form(header)]
+    c: Blob,
+}
+impl Fv for X08 {
+    fn ty() -> String {
+        "x:blobs".into()
+    }
+    fn gen(r: &mut Rng, d: u32) -> Self {
+        X08 { a: Blob::gen(r, d).into_vec(), b: Blob::gen(r, d).into_vec().into_boxed_slice(), c: Blob::gen(r, d) }
+    }
+    fn inst(&self, o: &mut String) {
+        o.push_str(&format!("(d{},d{},d{})", hexs(&self.a), hexs(&self.b), hexs(self.c.as_ref())));
+    }
+    fn parse(p: &mut P) -> Option<Self> {
+        p.eat(b'(')?;
+        p.eat(b'd')?;
+        let a = p.hex_bytes()?;
+        p.eat(b',')?;
+        p.eat(b'd')?;
+        let b = p.hex_bytes()?.into_boxed_slice();
+        p.eat(b',')?;
+        p.eat(b'd')?;
+        let c = Blob::from_vec(p.hex_bytes()?);
+        p.eat(b')')?;
+        Some(X08 { a, b, c })
+    }
+    fn modelled() -> bool {
+        false
+    }
+}
+
+/// the library types in slot / attribute / header / body positions of derived structs
+#[derive(Form, Clone, PartialEq, Debug)]
+struct X09 {
+    #[form(attr)]
+    d: Duration,
+    #[form(header)]
+    t: Timestamp,
+    q: Quantity<u64>,
+    u: RouteUri,
+    z: usize,
+    n: NonZeroUsize,
+    g: BigUint,
+    x: Text,
+    a: Arc<S04>,
+    r: RetryStrategy,
+}
+bat_struct_nodefault!(X09 { d: Duration, t: Timestamp, q: Quantity<u64>, u: RouteUri, z: usize, n: NonZeroUsize, g: BigUint, x: Text, a: Arc<S04>, r: RetryStrategy });
+
+#[derive(Form, Clone, PartialEq, Debug)]
+struct X10 {
+    #[form(header_body)]
+    t: Timestamp,
+    #[form(body)]
+    d: Duration,
+}
+bat_struct_nodefault!(X10 { t: Timestamp, d: Duration });
+
+/// maps with compound keys in slot, attribute and body position
+#[derive(Form, Clone, PartialEq, Debug, Default)]
+struct X11 {
+    #[form(attr)]
+    index: HashMap<(i32, i32), String>,
+    by_struct: HashMap<S01, i32>,
+    by_list: HashMap<Vec<i32>, E01>,
+}
+bat_struct_nodefault!(X11 { index: HashMap<(i32, i32), String>, by_struct: HashMap<S01, i32>, by_list: HashMap<Vec<i32>, E01> });
+
+#[derive(Form, Clone, PartialEq, Debug, Default)]
+struct X12 {
+    #[form(attr)]
+    a: i32,
+    #[form(body)]
+    b: HashMap<E01, (i32, String)>,
+}
+bat_struct_nodefault!(X12 { a: i32, b: HashMap<E01, (i32, String)> });
 
 // ---- outside the model's universe
 #[derive(Form, Clone, PartialEq, Debug, Default)]
@@ -1871,9 +2340,18 @@ fn registry() -> Vec<Box<dyn Ops>> {
         "Pi32" => i32, "Pu64" => u64, "Ptext" => String, "Pbool" => bool, "Popt" => Option<i32>, "Plist" => Vec<S01>,
         "Ptup2" => (i32, String), "Ptup3" => (S06, Option<i32>, Vec<i32>),
         "X01" => X01, "X02" => X02, "X03" => X03, "X04" => X04, "X05" => X05, "X06" => X06, "X07" => X07,
+        // library types with hand-written impls, compound-key maps
+        "X08" => X08, "X09" => X09, "X10" => X10, "X11" => X11, "X12" => X12,
+        "Lusize" => usize, "Lnz" => NonZeroUsize, "Lbiguint" => BigUint, "Lbigint" => BigInt, "Lf64" => f64, "Lunit" => (),
+        "Ltext" => Text, "Luri" => RouteUri, "Larc" => Arc<S06>, "Lblob" => Blob, "Lvalue" => Value, "Li64" => i64, "Lu32" => u32,
+        "Ldur" => Duration, "Ltime" => Timestamp, "Lquant" => Quantity<Duration>, "Lquant2" => Quantity<S01>, "Lretry" => RetryStrategy,
+        "Ptup1" => (Duration,), "Ptup12" => Tup12,
+        "Kmap2" => HashMap<(i32, i32), String>, "KmapS" => HashMap<S01, Duration>, "KmapV" => HashMap<Vec<i32>, i32>,
+        "KmapE" => HashMap<E01, Vec<i32>>, "KmapO" => HashMap<Option<i32>, bool>,
     ];
     // `Option<Option<_>>` is the `Option` of a type that reads `Extant` (C16_option_of_unit_fails): not registered
-    all.into_iter().filter(|e| e.name() != "O:Popt").collect()
+    // (same for `Option<()>` and `Option<Value>`)
+    all.into_iter().filter(|e| !["O:Popt", "O:Lunit", "O:Lvalue"].contains(&e.name())).collect()
 }
 
 // ------------------------------------------------------------------------------------------ mutations
@@ -2350,7 +2828,7 @@ fn gen_paths_case(reg: &[Box<dyn Ops>], r: &mut Rng, t: &mut Trace, e: &dyn Ops,
 
 fn main() {
     // panics inside the code under test are outcomes, not noise on stderr
-    std::panic::set_hook(Box::new(|_| {}));
+    if std::env::var("SV_PANIC").is_err() { std::panic::set_hook(Box::new(|_| {})); }
     let reg = registry();
     match parse_args() {
         Mode::Gen { seed, cases, out } => {
